@@ -856,7 +856,16 @@ def _run(chk, replay, quick, fnd, cwd):
     small = [i for i in model_idx if len(api[i].get("args", [])) <= 1]
     rest = [i for i in model_idx if len(api[i].get("args", [])) > 1]
     budget = 2200 if quick else 20000
-    pick = rng.sample(small, min(len(small), budget // 2)) + rng.sample(rest, min(len(rest), budget - budget // 2))
+    # index-arithmetic members on number pairs are always compared (取样 decodes/encodes UTF-8 in the model; 交换, 新增)
+    forced = [i for i in rest if api[i]["name"] in ("取样", "交换", "新增") and api[i]["_rname"] in ("String", "Array")
+              and len(api[i]["args"]) == 2 and api[i]["args"][1].get("t") == "num"
+              and (api[i]["name"] == "新增" or api[i]["args"][0].get("t") == "num")]
+    if quick:
+        forced = [i for i in forced if api[i]["name"] == "取样"] + rng.sample([i for i in forced if api[i]["name"] != "取样"],
+                                                                               min(300, len([i for i in forced if api[i]["name"] != "取样"])))
+    fs = set(forced)
+    rest = [i for i in rest if i not in fs]
+    pick = forced + rng.sample(small, min(len(small), budget // 2)) + rng.sample(rest, min(len(rest), budget - budget // 2))
     pick.sort()
     terms = [model_term(api[i]) for i in pick]
     if terms:
